@@ -56,7 +56,7 @@ OPTS = dict(p_colnames=0.0, p_neg=0.2, p_agg=0.25, p_distinct=0.3, p_null_fact=0
             p_aggx=0.03, p_aggx_nobody=0.3, p_agg_nobody=0.04,
             p_inj_combine=0.6, p_inj_extra=0.35, p_fcall_nest=0.35, p_name_clash=0.4,
             p_call_idb=0.2, p_reuse_pick=0.6, p_inj_feed=0.5, p_hazard_rule=0.5,
-            p_graph_edb=0.5, null_in_single_fact=False, inj_distinct_args=True)
+            p_graph_edb=0.7, p_prop=0.08, null_in_single_fact=False, inj_distinct_args=True)
 CHOICES = ((), ('@NoInject',), ('@With',), ('@NoWith',), ('@NoInject', '@NoWith'),
            ('@NoInject', '@With'), ('@Ground',))
 N_ASSIGNMENTS = 5
